@@ -11,6 +11,7 @@ func init() {
 		Explain: "Recipient rules decided on the three routers for every router state and message: (R06.1) the protobuf placed in outgoing RPCs is the accepted msg.Message pointer itself, and (with R03.6, re-evaluated here) no code writes fields of an accepted pb.Message; (R06.2) every send/yield is — through the recipient sets it ranges over — behind the false edges of `peer == msg.ReceivedFrom` and `peer == author`; (R06.3) every recipient is a key of p.topics[topic], a mesh/fanout member, or dominated by a successful lookup in the topic map; (R06.4) the router is handed only non-local messages (single and batch path); (R06.5) mesh/fanout recipients are skipped exactly when they declared the message unwanted; (R06.6) inclusion as implication checks: a direct topic peer, a floodsub-only topic peer at/above the publish threshold, a flood-publish topic peer that is direct or at/above the threshold, and a mesh/fanout member that did not declare the message unwanted can only miss the recipient set on a path that refutes that condition, and a collected recipient is only skipped by the source/author/partial-message exclusions; (R06.7) fanout is used only when the topic is not joined, its lastpub stamp is refreshed on every use, it is re-drawn only when empty, expires only after FanoutTTL without publishing and loses members only when they left the topic or fell below the publish threshold. (R06.3 after the audit round) mesh/fanout members get no exemption: a member that never subscribed or unsubscribed without PRUNE is not a topic peer. NOT decided: that an outbound stream exists, random selection of randomsub beyond RandomSubD, the exact size of the fanout set.",
 		Assume:  []string{"p.topics[topic] holds exactly the peers known to be in the topic (C05)", "gs.mesh/gs.fanout members are topic peers (C07)"},
 		Mutants: []Mutant{
+			{Name: "fanout-expiry-sum-form", File: "gossipsub.go", Old: "\t\tif now-lastpub > int64(gs.params.FanoutTTL) {", New: "\t\tif lastpub+int64(gs.params.FanoutTTL) < now {", Expect: "R06.7"},
 			{Name: "flood-forwards-copy", File: "floodsub.go", Old: "\tout := rpcWithMessages(msg.Message)\n\tfor pid := range fs.p.topics[topic] {", New: "\tcp := *msg.Message\n\tout := rpcWithMessages(&cp)\n\tfor pid := range fs.p.topics[topic] {", Expect: "R06.1"},
 			{Name: "flood-echo-to-author", File: "floodsub.go", Old: "\t\tif pid == from || pid == peer.ID(msg.GetFrom()) {", New: "\t\tif pid == from {", Expect: "R06.2"},
 			{Name: "randomsub-floodsub-before-exclusion", File: "randomsub.go", Old: "\t\tif p == from || p == src {\n\t\t\tcontinue\n\t\t}\n\n\t\tif rs.peers[p] == FloodSubID {\n\t\t\ttosend[p] = struct{}{}\n\t\t} else {", New: "\t\tif rs.peers[p] == FloodSubID {\n\t\t\ttosend[p] = struct{}{}\n\t\t\tcontinue\n\t\t}\n\t\tif p == from || p == src {\n\t\t\tcontinue\n\t\t}\n\t\t{", Expect: "R06.2"},
@@ -23,7 +24,7 @@ func init() {
 			{Name: "fanout-used-when-mesh-empty", File: "gossipsub.go", Old: "\t\t\tgmap, ok := gs.mesh[topic]\n\t\t\tif !ok {\n\t\t\t\t// we are not in the mesh for topic, use fanout peers", New: "\t\t\tgmap, ok := gs.mesh[topic]\n\t\t\tif !ok || len(gmap) == 0 {\n\t\t\t\t// we are not in the mesh for topic, use fanout peers", Expect: "R07.4"},
 			{Name: "lastpub-only-on-create", File: "gossipsub.go", Old: "\t\t\tgs.fanout[topic] = peers\n\t\t}\n\t}\n\tgs.lastpub[topic] = time.Now().UnixNano()\n", New: "\t\t\tgs.fanout[topic] = peers\n\t\t\tgs.lastpub[topic] = time.Now().UnixNano()\n\t\t}\n\t}\n", Expect: "R06.7"},
 			{Name: "fanout-redrawn-when-small", File: "gossipsub.go", Old: "\tpeers := gs.fanout[topic]\n\tif len(peers) == 0 {", New: "\tpeers := gs.fanout[topic]\n\tif len(peers) < gs.params.Dlo {", Expect: "R06.7"},
-			{Name: "fanout-expiry-half-ttl", File: "gossipsub.go", Old: "\t\tif lastpub+int64(gs.params.FanoutTTL) < now {", New: "\t\tif lastpub+int64(gs.params.FanoutTTL)/2 < now {", Expect: "R06.7"},
+			{Name: "fanout-expiry-half-ttl", File: "gossipsub.go", Old: "\t\tif now-lastpub > int64(gs.params.FanoutTTL) {", New: "\t\tif now-lastpub > int64(gs.params.FanoutTTL)/2 {", Expect: "R06.7"},
 		}})
 }
 
@@ -475,22 +476,34 @@ func runC06(c *RuleCtx) {
 		})
 	}
 	if f := c.MustFn("R06.7", fnHeartbeat); f != nil {
-		expired := Atom{Desc: "lastpub + FanoutTTL < now", Match: func(g *Graph, e ast.Expr) (bool, bool) {
+		// "FanoutTTL has passed since the last publish", in either arithmetic form: lastpub + TTL < now, or
+		// now - lastpub > TTL. The sum form overflows int64 for a very large TTL (FanoutTTL is not validated and
+		// "never expire" is naturally written as the largest Duration): the sum goes negative and the fanout expires
+		// at every heartbeat, so the sum form is reported separately
+		var sumForm ast.Node
+		isStamp := func(v *V) bool { return v.Kind == "rangeval" && v.Args[0].IsField(gsField("lastpub")) }
+		isTTL := func(v *V) bool { return stripConv(v).IsField("GossipSubParams.FanoutTTL") }
+		isNow := func(v *V) bool { return v.IsCall("time.Time.UnixNano") && v.Args[0].IsCall("time.Now") }
+		expired := Atom{Desc: "FanoutTTL passed since lastpub", Match: func(g *Graph, e ast.Expr) (bool, bool) {
 			be, ok := unparen(e).(*ast.BinaryExpr)
 			if !ok {
 				return false, false
 			}
 			l, r := g.P.R(g.F).Val(be.X), g.P.R(g.F).Val(be.Y)
-			isSum := func(v *V) bool {
-				return v.Kind == "op" && v.Name == "+" && v.Args[0].Kind == "rangeval" && v.Args[0].Args[0].IsField(gsField("lastpub")) &&
-					stripConv(v.Args[1]).IsField("GossipSubParams.FanoutTTL")
-			}
-			isNow := func(v *V) bool { return v.IsCall("time.Time.UnixNano") && v.Args[0].IsCall("time.Now") }
+			isSum := func(v *V) bool { return v.Kind == "op" && v.Name == "+" && ((isStamp(v.Args[0]) && isTTL(v.Args[1])) || (isStamp(v.Args[1]) && isTTL(v.Args[0]))) }
+			isAge := func(v *V) bool { return v.Kind == "op" && v.Name == "-" && isNow(v.Args[0]) && isStamp(v.Args[1]) }
 			op := be.Op.String()
-			if isSum(l) && isNow(r) {
-			} else if isSum(r) && isNow(l) {
+			switch {
+			case isSum(l) && isNow(r):
+				sumForm = be
+			case isSum(r) && isNow(l):
+				sumForm = be
 				op = flipOp(op)
-			} else {
+			case isAge(l) && isTTL(r):
+				// now - lastpub > TTL  <=>  lastpub + TTL < now
+				op = flipOp(op)
+			case isAge(r) && isTTL(l):
+			default:
 				return false, false
 			}
 			switch op {
@@ -509,6 +522,9 @@ func runC06(c *RuleCtx) {
 			n++
 			ok, why := p.DomDeep(f, s.Node, AtomWant{expired, true})
 			c.Check(ok, "R06.7", f.Name, "fanout expires only after FanoutTTL without publishing", s.Node, why, why)
+			if ok {
+				c.Check(sumForm == nil, "R06.7", f.Name, "fanout expiry arithmetic cannot overflow", s.Node, "compares the age (now - lastpub) with FanoutTTL", "the expiry test adds FanoutTTL to the timestamp; FanoutTTL is not bounded by validation, and for a very large value (the natural way to say \"never expire\") the sum overflows int64, goes negative, and every fanout expires at the next heartbeat although the topic keeps being published to")
+			}
 		}
 		if n == 0 {
 			c.Bad("R06.7", f.Name, "fanout expiry", f.Decl, "heartbeat never expires fanout state")
